@@ -170,6 +170,9 @@ def judge(ctx, w, flavour, results, corrupt=None):
     if orc.ambiguous_tie(ref):
         ctx.count("workloads.not_judged_control_instant_ties_with_a_completion")
         return
+    if orc.near_tie(ref):
+        ctx.count("workloads.not_judged_distinct_dates_closer_than_the_precision")
+        return
     ov = overlap_count(ref)
     ctx.count("reference.activities", len(ref["kinds"]))
     ctx.count("reference.time_advances", ref["nadvance"])
@@ -274,7 +277,7 @@ def directed():
     # expected to agree: the same dynamic features where every configuration handles them
     prof = {"period": 5.0, "points": [(0.0, 1.0), (1.5, 0.5), (2.5, 0.25), (4.0, 1.0)]}
     bpr = {"period": 6.0, "points": [(0.0, 1e6), (2.0, 5e5), (3.0, 2e6)]}
-    p = _two_hosts(profile=prof, bwprof=bpr)
+    p = _two_hosts(profile=prof, bwprof=bpr, lat=0.0)
     out.append(("ti-profile-sharing", _w(p, [("x%d" % i, "a", [["S", 0.3 * i], ["E", i, "a", 1e9 * (i + 1), -1.0, [1.0, 2.0, 0.5][i]]]) for i in range(3)] +
                                         [("snd", "a", [["C", 10 + k, "a", "b", 1.5e6] for k in range(3)])], True), None))
     p = _plat([("a", 4, [1e9, 5e8, 2e9], {"period": -1.0, "points": [(0.7, 0.5), (2.1, 1.0)]}), ("b", 1, [1e9], None), ("c", 2, [2e9], None)],
